@@ -66,6 +66,9 @@ def check_batch(inp):
     return None
   ds, keep, wp = make_ds(n, inp.get('pre', True))
   view = ds.batch(batch_size=b, drop_remainder=drop)
+  if inp.get('peek'):
+    for _ in zip(range(inp['peek']), view):
+      pass
   first = list(view)
   second = list(view)
   exp = expected(keep, wp)
@@ -105,6 +108,9 @@ def sweep_batch(tier, seed):
     for b in range(1, hi + 2):
       for drop in (False, True):
         yield dict(N=n, batch_size=b, drop_remainder=drop, pre=(n + b) % 2 == 0)
+  for n, b in ((7, 3), (5, 1), (9, 4)):
+    for peek in (1, 2):
+      yield dict(N=n, batch_size=b, drop_remainder=False, pre=True, peek=peek)
 
 
 def check_padded(inp):
@@ -113,6 +119,10 @@ def check_padded(inp):
     return None
   ds, keep, wp = make_ds(n, inp.get('pre', True))
   view = ds.padded_batch(batch_size=b, num_batch_size_buckets=k)
+  if inp.get('peek'):
+    # a partial pass first (a peek at the first batch, a consumer that stops early): later passes are still complete
+    for _ in zip(range(inp['peek']), view):
+      pass
   first = list(view)
   second = list(view)
   exp = expected(keep, wp)
@@ -167,6 +177,9 @@ def sweep_padded(tier, seed):
     for b in range(1, hi + 2):
       for k in (1, 2, 3, 5):
         yield dict(N=n, batch_size=b, num_batch_size_buckets=k, pre=(n + b + k) % 2 == 0)
+  for n, b in ((7, 3), (5, 1), (9, 4)):
+    for peek in (1, 2):
+      yield dict(N=n, batch_size=b, num_batch_size_buckets=2, pre=True, peek=peek)
 
 
 def check_helpers(inp):
